@@ -13,7 +13,8 @@ Instrumentation (observation only, no behaviour change):
     `close()` first records a snapshot of the connection (who closes it, which handlers are
     still registered, orphans, in_flight) -- "the state at the moment close() is called";
   * `pool.shutdown` of both pool classes is wrapped to record when a pool was shut down and
-    what it held at that moment;
+    what it held at that moment; HostConnection._replace is wrapped to record its argument;
+  * cassandra.pool reads a coarser creeping clock (PoolClock).
 The four checks supply observers (`after_event`, `final_answered`, `final_shutdown`) that
 evaluate their own invariants on this record.
 """
@@ -24,6 +25,7 @@ import sys
 import sim  # noqa: F401
 from checks import _simutil as U
 from sim import wire
+from sim.vthreads import VTime
 from sim.world import seg_encode
 
 PREFIX = "SELECT k FROM t WHERE id="
@@ -32,6 +34,14 @@ ADDR = "10.0.0.1"
 TIMEOUTS = [0.3, 1.0, 5.0, None]
 ERR_ANSWERS = ["unavailable", "overloaded", "read_timeout", "write_timeout", "server_error", "invalid"]
 FAIL_ANSWERS = ["garbage", "protocol", "neglen", "close", "reset", "garbage+next", "protocol+next"]
+
+
+class PoolClock(VTime):
+    """`time` as seen by cassandra.pool: a clock reading costs 100 virtual microseconds instead of sim's 1.
+    HostConnection.borrow_connection busy-waits (no blocking call in its loop) while the pool's connection is
+    closed and its replacement has not been installed yet -- for the whole connect delay, up to its 2 s timeout;
+    at 1 us per iteration that is up to two million iterations per borrower, at 100 us it is twenty thousand."""
+    TICK = 1e-4
 
 
 def tag_of_query(q):
@@ -159,6 +169,7 @@ class Machine(object):
         from cassandra.cluster import EXEC_PROFILE_DEFAULT, ExecutionProfile
         from cassandra.policies import ConstantReconnectionPolicy, ConvictionPolicy, HostDistance
         case, sim_, net = self.case, self.sim, self.net
+        sim_.patch.set(P, "time", PoolClock(sim_.world))
         self._wrap_shutdown(P.HostConnection)
         self._wrap_shutdown(P.HostConnectionPool)
         self._wrap_replace(P.HostConnection)
@@ -687,7 +698,12 @@ def s_history(st, draw, profile, n, fail_kinds=None):
             events.append(["answer", draw(st.integers(0, out - 1)), draw(st.sampled_from(fail_kinds or FAIL_ANSWERS))])
             out = 0
         elif k == "kill":
-            events.append(["kill", draw(st.integers(0, 2)), draw(st.sampled_from(["close", "reset", "explicit"]))])
+            # an explicit close() behind the pool's back is only generated for C10 (whose statement names it):
+            # on a connection that has reached its orphan threshold it makes HostConnection.borrow_connection
+            # busy-wait (closed + threshold => re-read self._connection, which is still the closed one) for its whole
+            # 2 s timeout -- two million iterations of virtual microseconds
+            events.append(["kill", draw(st.integers(0, 2)),
+                           draw(st.sampled_from(["close", "reset", "explicit"] if profile == "c10" else ["close", "reset"]))])
             out = 0
         elif k == "adv_short":
             events.append(["advance", draw(st.sampled_from([0.05, 0.35, 0.35, 0.75, 1.1]))])
